@@ -69,8 +69,9 @@ struct KICMP6 : Kind { EthernetII pkt; ICMPv6* t; KICMP6() { pkt = EthernetII() 
     bool find(long c, Item& o) { const ICMPv6::option* x = t->search_option((ICMPv6::OptionTypes)c); if (!x) return false; o = item_of(*x, x->option()); return true; }
     PDU* parse(const Bytes& b) { return new EthernetII(&b[0], (uint32_t)b.size()); }
     std::vector<Item> list_of(PDU& p) { return lst(&p.rfind_pdu<ICMPv6>()); } };
-struct KDHCP : Kind { DHCP pkt; KDHCP() { pkt.chaddr(HWAddress<6>("00:11:22:33:44:55")); }
-    PDU* root() { return &pkt; } long concrete(long c) { return c == 0 ? 224 : c == 1 ? 225 : 226; }
+struct KDHCP : Kind { DHCP pkt; bool single; KDHCP(bool single_octet_codes = false) : single(single_octet_codes) { pkt.chaddr(HWAddress<6>("00:11:22:33:44:55")); }
+    PDU* root() { return &pkt; } long concrete(long c) { if (single && c < 2) return (c == 0) != (VARIANT != 0) ? 255 : 0;      /* End and Pad: one octet on the wire */
+                                                        return c == 0 ? 224 : c == 1 ? 225 : 226; }
     bool add(long c, const Bytes& d, long sp) { if (sp >= 0) pkt.add_option(DHCP::option((uint8_t)c, (uint16_t)sp, d.begin(), d.end())); else { if (ALT++ % 2) pkt.add_option(DHCP::option((uint8_t)c, d.begin(), d.end())); else { DHCP::option named((uint8_t)c, d.begin(), d.end()); pkt.add_option(named); } }; return true; }
     int remove(long c) { return pkt.remove_option((DHCP::OptionTypes)c) ? 1 : 0; }
     std::vector<Item> lst(const DHCP* x) { std::vector<Item> r; DHCP::options_type opts_copy = x->options(); for (DHCP::options_type::const_iterator it = opts_copy.begin(); it != opts_copy.end(); ++it) r.push_back(item_of(*it, it->option())); return r; }
@@ -117,7 +118,7 @@ struct KRTP : Kind { RTP pkt; KRTP() { pkt.payload_type(96); pkt /= RawPDU(PAYLO
 
 static Kind* make_kind(const std::string& k) {
     if (k == "tcp") return new KTCP(); if (k == "ip4") return new KIP(); if (k == "ip6") return new KIP6(); if (k == "icmp6") return new KICMP6();
-    if (k == "dhcp") return new KDHCP(); if (k == "dhcp6") return new KDHCP6(); if (k == "dot11") return new KDOT11(); if (k == "pppoe") return new KPPPOE(); if (k == "rtp") return new KRTP();
+    if (k == "dhcp") return new KDHCP(); if (k == "dhcp1") return new KDHCP(true); if (k == "dhcp6") return new KDHCP6(); if (k == "dot11") return new KDOT11(); if (k == "pppoe") return new KPPPOE(); if (k == "rtp") return new KRTP();
     return 0;
 }
 static void items_json(vh::W& w, const char* key, const std::vector<Item>& v) { w.key(key).A(); for (size_t i = 0; i < v.size(); ++i) { w.A().v(v[i].code).bytes(v[i].data.begin(), v[i].data.end()).v(v[i].lenfield).E(); } w.E(); }
